@@ -1,6 +1,7 @@
 """Labelled rewritings of engine cases: invalid-by-construction variants (C08/C09) and
 computation-preserving / computation-changing variants (C02/C03)."""
 import copy
+import json
 
 from hypothesis import strategies as st
 
@@ -227,7 +228,8 @@ def _nodes_with_values(case):
 
 
 PRESERVING = ['rename_files', 'wrap_ns', 'perm_meta', 'perm_inputs', 'perm_tasks', 'perm_uses', 'perm_keys', 'fmt_swap', 'add_ignored',
-              'add_default', 'to_context', 'gv_change', 'add_absent_optional', 'wild_swap', 'multi_config', 'uses_objects']
+              'add_default', 'to_context', 'gv_change', 'add_absent_optional', 'wild_swap', 'multi_config', 'uses_objects',
+              'spell_default']
 CHANGING = ['chg_value', 'chg_value', 'chg_value_deep', 'chg_obj_arg', 'retag', 'rewire', 'drop_optional', 'chg_context',
             'chg_default_param', 'swap_mounts']
 
@@ -470,6 +472,22 @@ def rewrite(draw, case, kinds, n_max=3):
                 a = draw(st.sampled_from(us))
                 b = draw(st.sampled_from([u for u in us if u['ns'] != a['ns']]))
                 a['ns'], b['ns'] = b['ns'], a['ns']
+        elif kind == 'spell_default':
+            # a not-persisted-at-default parameter that the config leaves out is written out with its default value
+            # (a Path default as the string a config file can hold)
+            cands = []
+            for fi, pn, nd in _all_nodes(case):
+                if nd['module'] is None:
+                    continue
+                for key, plist in gen.param_keys_of_module(prog['modules'][nd['module']]).items():
+                    if key not in nd['values'] and plist and all('default' in p_ and p_.get('dpdv') and not p_.get('object')
+                                                                 for p_ in plist):
+                        if len({json.dumps(p_['default'], sort_keys=True, default=repr) for p_ in plist}) == 1:
+                            cands.append((nd, key, plist[0]['default']['v'], bool(plist[0]['default'].get('as_path'))))
+            if cands:
+                typed = [c for c in cands if c[3]]
+                nd, key, dv, _ = draw(st.sampled_from(typed if typed and draw(st.integers(0, 3)) > 0 else cands))
+                nd['values'][key] = copy.deepcopy(dv)
         elif kind == 'uses_objects':
             # the root config given as Config(data=...) with Config OBJECTS in `uses` instead of path strings
             case['uses_as_objects'] = True
